@@ -8,10 +8,11 @@ import re
 import scriptgen_names as sg
 import vlib
 
-VARIANTS = ["%d%d%d%d" % (a, b, c, d) for a in (0, 1) for b in (0, 1) for c in (0, 1) for d in (0, 1)]
+VARIANTS = ["%d%d%d%d%d" % (a, b, c, d, e) for a in (0, 1) for b in (0, 1) for c in (0, 1) for d in (0, 1) for e in (0, 1)]
 VARIANTS.sort(key=lambda v: (v.count("1"), v))
 FIX_NAMES = ("eraseTermName drops empty entries", "assertions.push after insertFormula", "pop checks the bound first",
-             "names of a rejected command rolled back")
+             "names of a rejected command rolled back", "TermNames::popScope guarded against a missing scope")
+AS_IS = "00000"
 
 
 def resp_kind(segment):
